@@ -82,7 +82,13 @@ def run(run):
                 if is_conv:
                     users.append((p, bid, t))
         run.record("span_producers_consumers", [short(p) for p, _, _ in users])
-        lib_users = [(p, bid, t) for p, bid, t in users if p.endswith("CellBuffer::endorse_to_fragment_spans") or p.endswith("CellBuffer::get_fragment_spans")]
+        # the two library consumers, or a private helper of their module that both of them call (`endorse_spans()`)
+        from ..common import module_region as _mr
+        cons_region = set()
+        for q_ in prog.bodies:
+            if q_.endswith("CellBuffer::endorse_to_fragment_spans") or q_.endswith("CellBuffer::get_fragment_spans"):
+                cons_region.update(_mr(prog, q_))
+        lib_users = [(p, bid, t) for p, bid, t in users if p in cons_region and "{closure" not in p]
         for p, bid, t in lib_users:
             # into_iter().map(|span| span.endorse())
             ok = False
